@@ -94,6 +94,8 @@ def build(ctx: RunCtx) -> Prop:
         reg.add(c)
     from . import c01_mem, c01_bounded
     verify += c01_mem.contracts(T, reg, ctx)
+    from . import c01_sqlite
+    verify += c01_sqlite.contracts(T, reg, ctx)
     prop = Prop(
         pid=PID, title="lifecycle state machine: status_record_transition == spec_step; Mem transition keeps the index invariant; "
                        "refused requests change nothing; both backends enumerated over the complete single-step space",
